@@ -264,6 +264,18 @@ def F26(fil):
     return (ts.header.fch1, t2.header.fch1) != want, f"read_chan(3).fch1={ts.header.fch1} extract_chans([5]).fch1={t2.header.fch1}, channel labels {want}"
 
 
+def F27(fil):
+    # 16 channels 400..385 MHz, tsamp 1 ms: dm=1 gives delays of a few tens of samples
+    dm = 1.0
+    d = fil.header.get_dmdelays(dm)
+    whole = fil.read_block(0, fil.header.nsamples).data
+    start, n = 2, 64
+    blk = fil.read_dedisp_block(start, n, dm).data
+    want = np.stack([whole[c, start + d[c]: start + d[c] + n] for c in range(fil.header.nchans)])
+    bad = int((blk != want).sum())
+    return bad > 0, f"read_dedisp_block(start={start}, nsamps={n}, dm={dm}): {bad} cells differ from x[c, t + delay_c] (max delay {int(d.max())})"
+
+
 ALL = {k: v for k, v in globals().items() if k.startswith("F") and k[1:].isdigit()}
 
 
